@@ -24,7 +24,10 @@ def concretise(words: list[dict], variant: int = 0, positional: bool = True) -> 
             c = "abcdefg"[(j + variant) % 7]
             ends = [".", "?", "!"] if n < 5 else [".", "?", "!", ".\"", ".'", ".”", ".’", ".)", "\".", "’.", ")!", "”?"]
             e = ends[(j + variant) % len(ends)]
-            out.append(c * (n - len(e)) + e)
+            m = n - len(e)
+            # the letters before the last may be of either case (GitHub. / APIs. / iPhone!): one spelling in three has an inner capital
+            body = c * m if m < 3 or (j + variant) % 3 != 1 else c + c.upper() + c * (m - 2)
+            out.append(body + e)
         elif k == "h":
             out.append(HAZ[(j + variant) % len(HAZ)])
         elif k == "n":
